@@ -10,6 +10,7 @@ import Driver.SerDriver
 import Driver.T1WriteDriver
 import Driver.AFMDriver
 import Driver.RefillDriver
+import Driver.T1ReadDriver
 /-!
 `psdriver`: reads one case per line from stdin, prints the model's canonical result
 line for each.  A line the driver cannot parse gives `bad-op` (never a default).
@@ -68,6 +69,7 @@ def handle (line : String) : String :=
   | ["csf", _, _] => "skip"
   | "ser" :: _ => serVerb line
   | "t1w" :: _ => t1wVerb line
+  | "t1r" :: _ => t1rVerb line
   | "afmrw" :: _ => afmVerb line
   | "refill" :: _ => refillVerb line
   | "cmap" :: _ => "skip"
@@ -81,6 +83,7 @@ def handle (line : String) : String :=
   | "det" :: _ => "skip"
   | "iso" :: _ => "skip"
   | "t1read" :: _ => "skip"      -- whole-font cases are decided by the harness oracles
+  | "t1readbig" :: _ => "skip"
   | "t1rt" :: _ => "skip"
   | "t1write" :: _ => "skip"
   | "t1closure" :: _ => "skip"
@@ -112,6 +115,22 @@ def handle (line : String) : String :=
       let (s1, r) := go s0 parts
       Driver.Canon.render s1 r
     | _, _ => "bad-op"
+  | ["runsall", maxOps, checkStart, progs] =>
+    -- consecutive Execute calls on one interpreter, every call made whatever the earlier ones returned;
+    -- answer: result class and operation counter after each call, then the final state
+    match maxOps.toNat?, mapM? bytesOfHex (progs.splitOn ",") with
+    | some m, some parts =>
+      let s0 := { newInterpreter with checkStart := checkStart == "1" }
+      let rec goAll (s : State) (acc : List String) : List (List Nat) → State × Res × List String
+        | [] => (s, .ok, acc.reverse)
+        | bs :: rest =>
+          let (s1, r) := execute (fuelFor m bs.length) m s (toU8 bs) none
+          match rest with
+          | [] => (s1, r, (s!"{s1.numOps}" :: acc).reverse)
+          | _ => goAll s1 (s!"{s1.numOps}" :: acc) rest
+      let (s1, r, counts) := goAll s0 [] parts
+      "counts=" ++ ",".intercalate counts ++ " " ++ Driver.Canon.render s1 r
+    | _, _ => "bad-op"
   | ["pfb", stream, sizes, sched] =>
     match bytesOfHex stream, mapM? String.toNat? (splitList sizes ","), mapM? String.toNat? (splitList sched ",") with
     | some bs, some ns, some sc =>
@@ -134,7 +153,7 @@ def handle (line : String) : String :=
     match mapM? (fun (p : String) => match p.splitOn ":" with
         | [a, b, c, d] => do pure (Query.Rect.mk (← parseInt a) (← parseInt b) (← parseInt c) (← parseInt d))
         | _ => none) (splitList rects ";") with
-    | some rs => let r := if kind == "afm" then Query.afmFontBBox rs else Query.fontBBox rs; s!"{r.llx} {r.lly} {r.urx} {r.ury}"
+    | some rs => let r := if kind == "afm" || kind == "funit" || kind == "funit16" then Query.afmFontBBox rs else Query.fontBBox rs; s!"{r.llx} {r.lly} {r.urx} {r.ury}"
     | none => "bad-op"
   | ["tou", d, h] =>
     match bytesOfHex h with
